@@ -481,6 +481,13 @@ func genRdata(r *Rng, pl *specPlan, nameMode int, plainStr bool) (rd []byte, fie
 			if r.Chance(15) {
 				b = append(b, []byte{'\\', 'a', '\\', '0', '6', '5', '"'}[r.Intn(7)])
 			}
+			if r.Chance(12) {
+				// the field takes the rest of the RDATA: it is not limited to the 255 octets of a character-string
+				for len(b) < []int{256, 257, 300, 511, 1000}[r.Intn(5)] {
+					b = append(b, genCharString(r, plainStr)...)
+					b = append(b, 'x')
+				}
+			}
 			rd = append(rd, b...)
 			fields[s.Field] = b
 			kinds[s.Field] = "octet"
